@@ -129,8 +129,25 @@ def run(pid, tier, seed, replay=None):
 
     # ---- spec -> impl: behaviours from TLC
     with_sn = pid in ("C01", "C03", "C04", "C07", "C08")
-    gen, by = semlib.enumerate_inputs(sel, work, tier, seminaive=with_sn,
+    codeplan = None
+    if with_sn or tier == "thorough":
+        # impl -> spec: the plan every compiled program prints (summary()) is handed to TLC, which executes it (CodePlan.tla)
+        pc = []
+        for i, p in enumerate(sel):
+            if (p["name"], "ser") in mods and not any(r["ds"] != "-" for r in p["rels"]):
+                pc.append(semlib.make_case(800000 + i, p, pidx[p["name"]], "ser", [], want_summary=True))
+        praw, pcrashed = semlib.run_cases(pc, mods, bindir, os.path.join(work, "plans"))
+        codeplan = {}
+        for c in pc:
+            txt = next((e.get("text", "") for e in praw.get(c["id"], []) if e.get("e") == "summary"), None)
+            if txt:
+                codeplan[c["prog"]] = semlib.code_plan_from_summary(txt)
+    gen, by = semlib.enumerate_inputs(sel, work, tier, seminaive=with_sn, codeplan=codeplan,
                                       cfg="SemGen_desugar.cfg" if (pid in ("C07", "C08") and tier == "quick") else None)
+    if codeplan is not None:
+        nocover = sorted(n for n, c in gen.cover.items() if c["has"] and not c["covers"])
+        out.extra["code_plan"] = {"programs_with_plan": len(codeplan), "executed_by_the_model": sum(1 for c in gen.cover.values() if c["covers"]),
+                                  "shape_drift": nocover, "inputs_on_which_the_code_plan_fails": len(gen.cpfail)}
     out.add_tlc(gen, "SemGen (all input databases within the bound; theorems of the semantics" +
                 (" and SemiNaive = LeastModel" if gen.seminaive_checked else "") +
                 (" and LeastModel(Core(P)) = LeastModel(P) (AscentDesugar.tla)" if pid in ("C07", "C08") or tier == "thorough" else "") + " on each)")
@@ -145,6 +162,11 @@ def run(pid, tier, seed, replay=None):
             raise ToolError(f"TLC enumerated no input database for {p['name']}")
         nprogs += 1
         chosen = select_cases(pcases, plan["cap"][tier], rnd)
+        # spec -> impl: inputs on which the model, executing the code's own plan, does not reach the least model
+        forced = [json.dumps(f["inputs"], sort_keys=True) for f in getattr(gen, "cpfail", []) if f["prog"] == p["name"]][:200]
+        if forced:
+            have = {json.dumps(c["inputs"], sort_keys=True) for c in chosen}
+            chosen += [c for c in pcases if json.dumps(c["inputs"], sort_keys=True) in set(forced) - have]
         vs = [v for v in plan["variants"] if (p["name"], v) in mods]
         for c in chosen:
             for v in vs:
